@@ -59,6 +59,17 @@ def observe():
         # on Linux the affinity mask belongs to the THREAD: this (non-main) thread narrows its own
         os.sched_setaffinity(0, set(range(cfg["thread_mask"])))
     _observe()
+    # the usable CPUs change WHILE the process lives (a job scheduler narrowing the mask, the application setting
+    # LOKY_MAX_CPU_COUNT after its first parallel call): everything is observed again under the new limits
+    for ph in cfg.get("phases", []):
+        if ph.get("mask"):
+            os.sched_setaffinity(0, set(range(ph["mask"])))
+        if ph.get("loky_max") is not None:
+            os.environ["LOKY_MAX_CPU_COUNT"] = str(ph["loky_max"])
+        else:
+            os.environ.pop("LOKY_MAX_CPU_COUNT", None)
+        cfg["nest"] = None
+        _observe()
 
 
 def _observe():
@@ -67,6 +78,7 @@ def _observe():
     cpus = ref_cpu_count()
     out["ref_cpu_count"] = cpus
     out["cpu_count"] = joblib.cpu_count()
+    out.setdefault("cpu_counts", []).append([out["cpu_count"], cpus])
     logdir = cfg["dir"]
     backend = cfg["backend"]
     kw = {} if backend == "default" else {"backend": backend}
@@ -92,7 +104,7 @@ def _observe():
     for k, n in enumerate(cfg["n_jobs_run"]):
         want = resolve(n, cpus)
         N = 3 * want + 2
-        logf = os.path.join(logdir, f"run{k}.log")
+        logf = os.path.join(logdir, f"run{len(out['runs'])}.log")
         rng_durs = [0.02 + 0.01 * ((i * 7) % 5) for i in range(N)]
         t0 = time.monotonic()
         res = Parallel(n_jobs=n, batch_size=1, **kw)(delayed(c15_tasks.timed)(i, logf, rng_durs[i], 0) for i in range(N))
